@@ -175,9 +175,7 @@ class Worker:
 
     def run(self, goal, limit=1000, det=False, timeout=None, fp=False):
         """Runs a goal through vt:run/2. Returns Result."""
-        g = goal.rstrip()
-        if not g.endswith('.'):
-            g += ' .'
+        g = goal.rstrip() + ' .'      # callers pass the goal without its end token
         job = {'op': 'run', 'goal': g, 'limit': limit}
         if det:
             job['pred'] = 'rund'
